@@ -105,7 +105,7 @@ def generate(rnd, tier):
                 args["nb_points"] = rnd.choice([2, 3, 5, 10, 11, 30])
         if fn == "roc_with_ci" and rnd.random() < 0.6:
             args["x_axis"] = rnd.choice(X_AXES)
-        args["alpha"] = rnd.choice([0.05, 0.01, 0.5, round(rnd.uniform(0.01, 0.5), 3)])
+        args["alpha"] = rnd.choice([0.05, 0.01, 0.5, round(rnd.uniform(0.01, 0.5), 3), round(rnd.uniform(0.5, 0.95), 2), 0.001])
         r = rnd.random()
         if r < 0.2:
             sampler = {"callable": "identity"}
